@@ -598,7 +598,7 @@ def _run(ctx, rng, sess):
             seen.add(sig)
             keep = sig[:25]
             small = wc.shrink(ops, lambda t, k=kind, kp=keep: (lambda x: x is not None and x[0] == k and re.sub(r"\d+", "#", x[1]).startswith(kp))(sess.check(t)),
-                              budget=80)
+                              budget=80, wall_s=90.0)
             r2 = sess.check(small)
             ctx.violation(small, "C17 fails on the implementation (%s, %s): %s" % (kind, name, (r2 or (0, msg))[1][:500]))
             reported += 1
@@ -621,12 +621,12 @@ def _run(ctx, rng, sess):
         if iso:
             ctx.violation(iso[0], "C17 fails on the implementation (isolation oracle, after the model tie broke at %s): %s" % (name, iso[1][:600]))
         elif found:
-            small = wc.shrink(found[0], lambda t: (lambda x: x is not None and x[0] == found[1][0])(sess.check(t)), budget=80)
+            small = wc.shrink(found[0], lambda t: (lambda x: x is not None and x[0] == found[1][0])(sess.check(t)), budget=80, wall_s=120.0)
             r2 = sess.check(small)
             ctx.violation(small, "C17 fails on the implementation (found by the search after the model tie broke at %s): %s"
                           % (name, (r2 or found[1])[1][:500]))
         else:
-            small = wc.shrink(ops, lambda t: (lambda x: x is not None and x[0] == "tie")(sess.check(t)), budget=60)
+            small = wc.shrink(ops, lambda t: (lambda x: x is not None and x[0] == "tie")(sess.check(t)), budget=60, wall_s=120.0)
             r2 = sess.check(small)
             ctx.violation(small, "correspondence process model <-> implementation broken (%d of %d files; first %s): %s; the property "
                           "oracle (frame / foreign / own handles / duplicate ids, evaluated on the implementation after every op) found no "
